@@ -80,6 +80,23 @@ def _check(ctx, what, sig, ln, v, enc, typ, obj, ops, val, Dfg, Node, OutPort):
         links = list(d.hugr.linked_ports(ld.inp(0)))
         if len(links) != 1 or not isinstance(d.hugr[links[0].node].op, ops.Const):
             return bad("load wired to its Const", "one link from the Const", str(links), "load")
+        # the helper constructors take Iterables: a one-shot iterator must give the same value
+        obj1 = W.build_value(v, once=True)
+        e1 = W.enc_value(obj1)
+        if W.canon(W.strip_hugr(e1)) != W.canon(W.strip_hugr(enc)) or not W.same_t(W.enc_type(obj1.type_()), typ):
+            return bad("built from one-shot iterators", {"enc": enc, "typ": typ}, {"enc": e1, "typ": W.enc_type(obj1.type_())}, "TypeOfS / EncValS (Iterable arguments)")
+        # ... and the constant keeps type, fields and extension sets when the HUGR holding it is saved and loaded
+        from hugr.hugr import Hugr
+        d.set_outputs(ld)
+        h2 = Hugr.load_json(d.hugr.to_json())
+        consts = [data.op for _, data in h2.nodes() if isinstance(data.op, ops.Const)]
+        if len(consts) != 1:
+            return bad("constant after save/load", "one Const", len(consts), "Load(Serialize)")
+        v2 = consts[0].val
+        if not W.same_t(W.enc_type(v2.type_()), typ):
+            return bad("type_() after save/load", typ, W.enc_type(v2.type_()), "TypeOfS invariant under Load.Serialize")
+        if _ext_shape(obj, val) != _ext_shape(v2, val):
+            return bad("extension sets after save/load", _ext_shape(obj, val), _ext_shape(v2, val), "DefExt(v) in extensions (after Load.Serialize)")
         return
     # ---- codec (C05)
     back = W.dec_value(enc)
@@ -102,3 +119,17 @@ def _check(ctx, what, sig, ln, v, enc, typ, obj, ops, val, Dfg, Node, OutPort):
         opaque_inside = '"Ext"' in jv or any(f'"v": "{k}"' in jv for k in ("Int", "Float", "String", "Array", "List", "StaticArray", "Function"))
         if v["v"] != "Tuple" and not opaque_inside and not (back == obj):   # extension types / constants come back opaque
             return bad("decoded equals original", "equal", "not equal", "Dec(Enc(v)) = v")
+
+
+def _ext_shape(x, val):
+    """the tree of extension constants inside a value: (name, sorted extension set) per extension constant, nesting per sum / tuple"""
+    if hasattr(x, "to_value") and not isinstance(x, val.Extension):
+        x = x.to_value()
+    if isinstance(x, val.Extension):
+        return ["ext", x.name, sorted(x.extensions)]
+    if isinstance(x, val.Function):
+        return ["fn"]
+    vals = getattr(x, "vals", None)
+    if vals is not None:
+        return ["sum", [_ext_shape(y, val) for y in vals]]
+    return ["other", type(x).__name__]
